@@ -248,6 +248,22 @@ func checkC46(r *mon.Run) {
 		if prefix {
 			opts = append(opts, addr.WithDefaultPrefix())
 		}
+		if len(opts) == 2 {
+			// A caller that keeps its options in one slice and first uses a prefix
+			// of it: the callee must leave the rest of the slice alone.
+			if rng.IntN(2) == 0 {
+				opts[0], opts[1] = opts[1], opts[0]
+			}
+			one := opts[:1]
+			t1 := addr.FormatAS(addr.AS(as), one...)
+			b1, e1 := addr.ParseFormattedAS(t1, one...)
+			r.Eval(1)
+			r.Event("options_prefix_then_full")
+			if e1 != nil || uint64(b1) != as {
+				r.Violation("C46:as-roundtrip", fmt.Sprintf("ParseFormattedAS(FormatAS(%#x)) with the first of two options = %#x, %v (text %q)", as, uint64(b1), e1, t1),
+					w{Kind: "as", Value: as, Sep: effSep, Prefix: prefix, Got: t1})
+			}
+		}
 		sepClass := effSep
 		key := "as/" + asClass(as) + "/sep=" + sepClass + fmt.Sprintf("/prefix=%v", prefix)
 		r.Class(key)
@@ -506,5 +522,5 @@ func checkC46(r *mon.Run) {
 			}
 		}
 	}
-	r.Require(int64(n), 30, "isd_roundtrip", "as_roundtrip", "ia_roundtrip", "host_roundtrip", "mutated_accepted", "mutated_rejected")
+	r.Require(int64(n), 30, "isd_roundtrip", "as_roundtrip", "ia_roundtrip", "options_prefix_then_full", "host_roundtrip", "mutated_accepted", "mutated_rejected")
 }
